@@ -1,7 +1,7 @@
 #ifndef E3_H
 #define E3_H
 #include "vf.h"
-#define E3_MAXW 3
+#define E3_MAXW 4
 typedef struct e3_cfg {
     int  nworlds;
     int  nev;
